@@ -2420,13 +2420,17 @@ L95:
 L115:
 	    ;
 	}
-/* Initialize heap Q and Q2 with rows held in Q(1:QLEN) */
-	q0 = qlen;
+/* Initialize heap Q and Q2 with the rows recorded above. */
+/* The list Q(1:QLEN) shares its storage with Q2 = Q(LOW:N): a row moved to */
+/* Q2 could overwrite list entries that were not processed yet. Rescan */
+/* column J instead; exactly the recorded rows have D(I) < RINF. */
 	qlen = 0;
-	i__2 = q0;
-	for (kk = 1; kk <= i__2; ++kk) {
-	    k = q[kk];
+	i__2 = ip[j + 1] - 1;
+	for (k = ip[j]; k <= i__2; ++k) {
 	    i__ = irn[k];
+	    if (iperm[i__] == 0 || d__[i__] == rinf) {
+		goto L120;
+	    }
 	    if (csp <= d__[i__]) {
 		d__[i__] = rinf;
 		goto L120;
